@@ -305,14 +305,15 @@ def threads(ctx, progs, rounds):
     old_interval = sys.getswitchinterval()
     sys.setswitchinterval(1e-5)
     try:
-        return _threads(ctx, progs + heavy * 3, rounds, nthreads)
+        return _threads(ctx, progs + heavy * 3, rounds, nthreads, heavy)
     finally:
         sys.setswitchinterval(old_interval)
 
 
-def _threads(ctx, progs, rounds, nthreads):
+def _threads(ctx, progs, rounds, nthreads, heavy=None):
     for r in range(rounds):
-        chosen = [ctx.rng.choice(progs) for _ in range(nthreads)]
+        # half of the threads work on modules with long stretches of per-call state, so that switches fall inside them
+        chosen = [ctx.rng.choice(heavy if (heavy and i % 2 == 0) else progs) for i in range(nthreads)]
         kws = [OPTSETS[(r + i) % len(OPTSETS)] for i in range(nthreads)]
         expected = [fresh(s, k) for s, k in zip(chosen, kws)]
         barrier = threading.Barrier(nthreads)
@@ -349,7 +350,7 @@ def run(ctx):
         histories(ctx, progs + [p for pair in residue_programs() for p in pair][::ctx.scale(9, 1)], ctx.scale(40, 600), pool)
     finally:
         pool.close()
-    threads(ctx, progs, ctx.scale(10, 120))
+    threads(ctx, progs, ctx.scale(24, 160))
     ctx.sample({'stage': 'programs', 'source': progs[0][:300]})
 
 
